@@ -695,6 +695,9 @@ def check_cases(ctx, res, batch, label, compare=True):
                      min(len(events), len(model['trace'])))
             res.disagreements.append({'case': case, 'first_difference': k, 'model': model['trace'][max(0, k - 3):k + 3],
                                       'impl': events[max(0, k - 3):k + 3]})
+        if compare and ctx.model_ok and model.get('bad'):
+            # the model's own history breaks a clause: the stated (unproved) clauses do not hold of the model
+            res.disagreements.append({'case': case, 'model_violates_spec': model['bad'][:3]})
         if judge['bad']:
             report_violation(ctx, res, case, events, errors, judge['bad'])
 
